@@ -1,5 +1,6 @@
 // C05 correspondence harness: momo::Array and ArrayIntCap<1..5> (see c05_array.h).
-// -DC05_PART=1: std::string items, internal capacity 0..5;  -DC05_PART=2: the other item types and memory managers
+// -DC05_PART=1: std::string items, internal capacity 0..5;  -DC05_PART=2: the other item types and memory managers;
+// -DC05_PART=3: the "not nothrow-movable but nothrow-swappable" item type
 #include "c05_array.h"
 using namespace c05;
 
@@ -17,6 +18,12 @@ static_assert(momo::ArrayItemTraits<NM, MM00>::isNothrowMoveConstructible && !mo
 static_assert(!momo::ArrayItemTraits<TM, MM00>::isNothrowMoveConstructible && momo::ArrayItemTraits<TM, MM00>::isNothrowRelocatable, "TM");
 static_assert(!momo::ArrayItemTraits<CO, MM00>::isNothrowRelocatable && !momo::ArrayItemTraits<CO, MM00>::isNothrowMoveConstructible, "CO");
 static_assert(momo::ArrayItemTraits<std::string, MM00>::isNothrowMoveConstructible, "string");
+// SW: for the arrays the category of CO (relocation = copy + destroy, plain assignment), for ObjectManager a swappable one
+static_assert(!momo::ArrayItemTraits<SW, MM00>::isNothrowRelocatable && !momo::ArrayItemTraits<SW, MM00>::isNothrowMoveConstructible
+	&& !momo::ArrayItemTraits<SW, MM00>::isTriviallyRelocatable, "SW");
+static_assert(momo::internal::ObjectManager<SW, MM00>::isNothrowSwappable && momo::internal::ObjectManager<SW, MM00>::isNothrowShiftable
+	&& momo::internal::ObjectManager<SW, MM00>::isNothrowAnywayAssignable && !std::is_nothrow_move_assignable<SW>::value
+	&& !std::is_nothrow_move_constructible<SW>::value, "SW");
 
 int main(int argc, char** argv)
 {
@@ -43,6 +50,10 @@ int main(int argc, char** argv)
 	runConfig<ArrayAdapter<Arr<0, TM, MM00>>>(c, rng, "a0_tm", "Allocate-only manager", b);
 	runConfig<ArrayAdapter<Arr<2, TM, MM00>>>(c, rng, "a2_tm", "Allocate-only manager", b);
 	runConfig<ArrayAdapter<Arr<0, CO, MM00>>>(c, rng, "a0_co", "Allocate-only manager", b);
+#endif
+#if !defined(C05_PART) || C05_PART == 3
+	runConfig<ArrayAdapter<Arr<0, SW, MM00>>>(c, rng, "a0_sw", "Allocate-only manager", b);
+	runConfig<ArrayAdapter<Arr<0, SW, MM01>>>(c, rng, "a0_sw_inplace", "ReallocateInplace manager", b);
 #endif
 	return c.finish();
 }
